@@ -72,6 +72,19 @@ def writer_keys(repo, c, model):
         if isinstance(st, ast.Assign) and len(st.targets) == 1 and isinstance(st.targets[0], ast.Name):
             single_defs.setdefault(st.targets[0].id, []).append(st.value)
 
+    # a list built by `xs = []` + `for t in it: xs.append(E)` stands for `[E for t in it]`
+    for st in walk_local_stmt(f.node):
+        if isinstance(st, ast.For) and len(st.body) == 1 and isinstance(st.body[0], ast.Expr) and isinstance(st.body[0].value, ast.Call) and not st.orelse:
+            cl = st.body[0].value
+            if isinstance(cl.func, ast.Attribute) and cl.func.attr == "append" and isinstance(cl.func.value, ast.Name) and len(cl.args) == 1 and not cl.keywords:
+                nm = cl.func.value.id
+                defs = single_defs.get(nm, [])
+                if len(defs) == 1 and isinstance(defs[0], ast.List) and not defs[0].elts:
+                    comp = ast.ListComp(elt=cl.args[0], generators=[ast.comprehension(target=st.target, iter=st.iter, ifs=[], is_async=0)])
+                    ast.copy_location(comp, st)
+                    ast.fix_missing_locations(comp)
+                    single_defs[nm] = [comp]
+
     def lit(e):
         """a local that names one dict literal (`fragment = {...}` ... `return maybeAdd(fragment, **optional)`) stands for it"""
         hops = 0
@@ -92,9 +105,9 @@ def writer_keys(repo, c, model):
                     while isinstance(v, ast.Name) and len(single_defs.get(v.id, [])) == 1 and hops < 3:
                         v = single_defs[v.id][0]
                         hops += 1
-                    wk = WKey(st.targets[0].slice.value, v, conditional, env_of, "")
-                    value_info(wk)
-                    out.append(wk)
+                    d1 = ast.Dict(keys=[ast.Constant(value=st.targets[0].slice.value)], values=[v])
+                    ast.copy_location(d1, st)
+                    add_dict(d1, conditional, env_of, "")
                 for fld in ("body", "orelse"):
                     b = getattr(st, fld, None)
                     if isinstance(b, list) and b and isinstance(b[0], ast.stmt) and not isinstance(st, (ast.FunctionDef, ast.ClassDef)):
@@ -111,6 +124,8 @@ def writer_keys(repo, c, model):
             add_dict(e, False, env, "")
         elif isinstance(e, ast.Call) and (call_name(e) or "").split(".")[-1] == "maybeAdd":
             if e.args and isinstance(lit(e.args[0]), ast.Dict):
+                if isinstance(e.args[0], ast.Name):
+                    later_stores(e.args[0].id)
                 add_dict(lit(e.args[0]), False, env, "")
             for kw in e.keywords:
                 if kw.arg is None and isinstance(lit(kw.value), ast.Dict):
